@@ -15,14 +15,14 @@ import (
 
 // Peers is a scriptable service.PeerService.
 type Peers struct {
-	Leader      bool
-	Proxy       bool
-	SyncErr     error
-	SyncFn      func() error // when set, called instead of returning SyncErr
-	Syncs       int
-	ProxiedTxn  int
+	Leader       bool
+	Proxy        bool
+	SyncErr      error
+	SyncFn       func() error // when set, called instead of returning SyncErr
+	Syncs        int
+	ProxiedTxn   int
 	ProxiedWatch int
-	LeaderAddr  string
+	LeaderAddr   string
 }
 
 func (p *Peers) SyncReadRevision() error {
@@ -32,10 +32,10 @@ func (p *Peers) SyncReadRevision() error {
 	}
 	return p.SyncErr
 }
-func (p *Peers) Close() error         { return nil }
-func (p *Peers) Campaign()            {}
+func (p *Peers) Close() error          { return nil }
+func (p *Peers) Campaign()             {}
 func (p *Peers) GetLeaderInfo() string { return p.LeaderAddr }
-func (p *Peers) IsLeader() bool       { return p.Leader }
+func (p *Peers) IsLeader() bool        { return p.Leader }
 func (p *Peers) GetElectionInfo() (leader.ElectionInfo, error) {
 	return leader.ElectionInfo{LeaderAddress: p.LeaderAddr, IsLeader: p.Leader}, nil
 }
@@ -51,10 +51,10 @@ func (p *Peers) Watch(ctx context.Context, key string, revision uint64) (<-chan 
 
 // WatchStream is an in-memory etcdserverpb.Watch_WatchServer.
 type WatchStream struct {
-	Ctx    context.Context
-	Cancel context.CancelFunc
-	Reqs   chan *etcdserverpb.WatchRequest
-	Sent   []*etcdserverpb.WatchResponse
+	Ctx     context.Context
+	Cancel  context.CancelFunc
+	Reqs    chan *etcdserverpb.WatchRequest
+	Sent    []*etcdserverpb.WatchResponse
 	SendErr error
 }
 
